@@ -1,5 +1,7 @@
 // C18 correspondence harness: the real line_parser / csv_parser / ndjson_parser on generated
-// file sets.   args: <kind: lines|csv|ndjson> <specfile> <pathmode: files|dir|dup>
+// file sets.   args: <kind: lines|csv|ndjson> <specfile> <pathmode: files|dir|dup> [<calls>]
+// <calls> (default 1): number of back-to-back for_all calls on the SAME parser object with the same callback
+// type (so they share for_all's function-local static assignment list); every call prints "C <k>" first.
 //
 // specfile:  "<nfiles>" then per file "<finalNL 0|1> <nlines> <len_0> ... <len_{nlines-1}>".
 // Rank 0 writes the files to $SIMMPI_TMP/data/f%03d.txt (removed with the run's temp dir); the
@@ -98,6 +100,7 @@ extern "C" int sim_main(int argc, char** argv) {
   hc::open_out(world.rank());
   if (argc < 4) return 2;
   std::string kind = argv[1], spec = argv[2], pathmode = argv[3];
+  int calls = argc > 4 ? atoi(argv[4]) : 1;
   const char* td = getenv("SIMMPI_TMP");
   std::string dir = std::string(td ? td : ".") + "/data";
 
@@ -134,13 +137,22 @@ extern "C" int sim_main(int argc, char** argv) {
   // ---- the real parsers
   if (kind == "lines") {
     ygm::io::line_parser lp(world, paths);
-    lp.for_all([](const std::string& line) { hc::out(item_line(line)); });
+    for (int c = 0; c < calls; ++c) {
+      hc::out("C " + std::to_string(c));
+      lp.for_all([](const std::string& line) { hc::out(item_line(line)); });
+    }
   } else if (kind == "csv") {
     ygm::io::csv_parser cp(world, paths);
-    cp.for_all([](const std::vector<ygm::io::detail::csv_field>& v) { hc::out(item_csv(v)); });
+    for (int c = 0; c < calls; ++c) {
+      hc::out("C " + std::to_string(c));
+      cp.for_all([](const std::vector<ygm::io::detail::csv_field>& v) { hc::out(item_csv(v)); });
+    }
   } else {
     ygm::io::ndjson_parser jp(world, paths);
-    jp.for_all([](const boost::json::object& o) { hc::out(item_json(o)); });
+    for (int c = 0; c < calls; ++c) {
+      hc::out("C " + std::to_string(c));
+      jp.for_all([](const boost::json::object& o) { hc::out(item_json(o)); });
+    }
   }
   world.barrier();
 
